@@ -43,5 +43,8 @@ pub fn catch<T, F: FnOnce() -> T>(f: F) -> Result<T, String> {
 
 /// Silence the default panic hook (panics are expected observations).
 pub fn quiet_panics() {
+    if std::env::var_os("VH_LOUD_PANICS").is_some() {
+        return; // debugging aid: keep the default hook so that the panic message is printed to stderr
+    }
     std::panic::set_hook(Box::new(|_| {}));
 }
